@@ -31,6 +31,16 @@ Theorem C10_race_free : forall (threads : list (list (list ev))) g,
 Proof. intros threads g H. apply balanced_threads_race_free. apply ops_balanced. exact H. Qed.
 Print Assumptions C10_race_free.
 
+(* a shard consists of its map and its mutex and of nothing else: the protocol above is then the whole story of the shared state
+   (regenerated from the struct declarations; a lock-free lookaside or any other field would be state the model does not know) *)
+Theorem C10_shard_state_is_map_and_mutex :
+  forall f fields, In (f, fields) Gen.Locks.shard_fields -> fields = ["Templates"; "sync.RWMutex"]%string.
+Proof.
+  intros f fields Hin. unfold Gen.Locks.shard_fields in Hin. cbn [In] in Hin.
+  repeat (destruct Hin as [Hin|Hin]; [injection Hin as _ <-; reflexivity|]). contradiction.
+Qed.
+Print Assumptions C10_shard_state_is_map_and_mutex.
+
 (* the generic theorem on its own: any programs accepted by the checker *)
 Theorem C10_checker_sound : forall g0 g, Inv g0 -> reachable g0 g -> ~ race g.
 Proof. exact race_free. Qed.
